@@ -25,6 +25,10 @@ EmptySchedule(c, tb) == \A st \in 0..(Nsteps(c) - 1) : DeclAt(c, tb, st) = <<>>
 \* rows at all in the window (the implementation refuses on rows, not on particles: mult = 0 rows count)
 NoRowInWindow(c, tb) == EmptySchedule(c, tb)
 
+\* when the stop time is not on the step grid, rows in the last partial interval [start + Nsteps dt, stop) are inside the
+\* window in time but their step is never executed by a cold run; a set-up whose only rows sit there may be accepted
+TailRelease(c, tb) == DeclAt(c, tb, Nsteps(c)) # <<>>
+
 \* ------------------------------------------------------------------ operational (real time, as the code)
 Before(c, a, b)   == IF c.rev THEN a > b ELSE a < b                      \* a strictly earlier than b in simulation order
 BeforeEq(c, a, b) == a = b \/ Before(c, a, b)
